@@ -1438,8 +1438,12 @@ class InterpreterAnalyzer(ASTTemplate):
             left_operand = get_measure_from_dataset(left_operand, node.left.value)
         return HR_NUM_BINARY_MAPPING[node.op].validate(left_operand, right_operand)
 
-    def visit_HRUnOp(self, node: AST.HRUnOp) -> None:
+    def visit_HRUnOp(self, node: AST.HRUnOp) -> Any:
         operand = self.visit(node.operand)
+        # A signed code item (`A = - B`, `A = + B + C`): the operand is the ruleset
+        # dataset; the sign applies to its measure, as for the binary operators.
+        if isinstance(operand, Dataset):
+            operand = get_measure_from_dataset(operand, node.operand.value)
         return HR_UNARY_MAPPING[node.op].validate(operand)
 
     def visit_Validation(self, node: AST.Validation) -> Dataset:
